@@ -968,6 +968,11 @@ def handle (ts : Toks) : String :=
     | "aring" => handleAlias 0 inp out
     | "apoly" => handleAlias 1 inp out
     | "ampoly" => handleAlias 2 inp out
+    -- reach self-test of the generator (harness/clipreach.go): the number of cases of the edge-through-corner
+    -- family on which a replica of clip.line's loop takes the `clips == 2` (clampToBound) arm
+    | "reach" => (match inp with
+      | [n] => if n == "0" then "bad reach-gate clamp-arm-unreached" else "ok reach-clamp"
+      | _ => "bad reach")
     | _ => "bad op " ++ op
   | [] => "bad empty"
 
